@@ -211,6 +211,12 @@ INITIALS = {
               ('add_transition', 'p', None, 'x'), ('add_transition', 'q', 'h', 'x'),
               ('add_transition', 'o', 'c', None), ('add_transition', 'p', 'p', 'x')],
              {'r': ('initial', 'c'), 'c': ('initial', 'o'), 'h': ('memory', 'c')}),
+    'twohist': ([('add_state', 'C', 'r', None), ('add_state', 'C', 'w', 'r'), ('add_state', 'B', 'a', 'w'),
+                 ('add_state', 'B', 'b', 'w'), ('add_state', 'HS', 'h1', 'w'), ('add_state', 'HD', 'h2', 'w'),
+                 ('add_state', 'C', 'o', 'r'), ('add_state', 'B', 'x', 'o'),
+                 ('add_transition', 'x', 'h1', 'p'), ('add_transition', 'x', 'h2', 'q'), ('add_transition', 'a', 'b', 'n')],
+                {'r': ('initial', 'w'), 'w': ('initial', 'a'), 'o': ('initial', 'x'), 'h1': ('memory', 'a'),
+                 'h2': ('memory', 'a')}),
     'tiny': ([('add_state', 'C', 'r', None), ('add_state', 'B', 'a', 'r'),
               ('add_transition', 'a', None, 'x'), ('add_transition', 'r', 'a', 'x')],
              {'r': ('initial', 'a')}),
